@@ -8,6 +8,7 @@
 List field
 """
 import inspect
+import operator
 from typing import Any, Iterable, List, Optional, Type, Union
 
 from ..core import (
@@ -73,6 +74,7 @@ class ListProxy(list, ContainerValueMixin):
             super().extend(self._validate(item) for item in iterable)
 
     def insert(self, index: int, item: Any) -> None:
+        index = operator.index(index)
         super().insert(index, self._validate(item))
 
     def copy(self) -> "ListProxy":
@@ -94,8 +96,13 @@ class ListProxy(list, ContainerValueMixin):
     ) -> None:
         if isinstance(index, slice):
             super().__setitem__(index, [self._validate(i) for i in item])
-        elif isinstance(index, int):
-            super().__setitem__(index, self._validate(item))
+        else:
+            # an int or any object that names a position through __index__, as for list; the
+            # position is checked first so that an item is only taken over when it will be stored
+            position = operator.index(index)
+            if not -len(self) <= position < len(self):
+                raise IndexError("list assignment index out of range")
+            super().__setitem__(position, self._validate(item))
 
     def _validate(self, value: Any) -> Any:
         """
